@@ -70,6 +70,17 @@ deleted construct is a violated instance:
         handle store in add_object, handle invalidation in remove(), counting loop): no iteration may leave the loop
         without reaching the advance (break / return on a per-element condition); reported under H1 / W1 / A1 / A3 / R4 /
         R1 respectively
+ B1     output buffers: every class of the anchor set that constructs osmium::memory::Buffer objects with an explicit growth
+        mode uses ONE mode for all of them (CallbackBuffer: both constructors and read()), and auto_grow::internal occurs
+        only in a class that drains nested buffers (get_last_nested / has_nested_buffers) -- CallbackBuffer, ItemStash
+        and the managers do not, so everything written after the first internal growth would never reach the flush
+        callback
+ O1     const / non-const overload twins (RelationMember, RelationMemberList, Relation, OSMObject, Item, Collection<>,
+        CollectionIterator<>, ItemStash, the databases, RelationHandle, the managers, CallbackBuffer): same CFG shape and
+        same top-level statements / conditions modulo const, cbegin/begin and const_iterator/iterator; a twin that only
+        delegates (`return cbegin();`) stands for its delegate; twins with the same ingredients (callees, fields,
+        constants, operators) in a different arrangement are accepted without further comparison (prefer a miss); twins
+        whose ingredients differ (a dropped branch such as the full-member skip in RelationMember::next) are a violation
  L1     lost update (all classes of the anchor set: members/relations database, handle, managers, ItemStash and its
         cleanup_helper, CallbackBuffer): a local initialised from a call that returns a non-const lvalue reference (or a
         std container element) and then written must be a reference, unless the written value is read again: otherwise
@@ -2057,10 +2068,164 @@ def interest_rules(fb, R, M):
             R.check(ok, 'P2-new-relation-requires-a-wanted-member', key, site, msg)
 
 
+# ================================================================================================ output buffer growth / overload twins
+
+BUFFER = 'osmium::memory::Buffer'
+
+
+def buffer_growth_check(fb, R, owners, BUFFER=BUFFER):
+    """B1, per owning class: every osmium::memory::Buffer the class constructs with an explicit growth mode uses ONE mode,
+    and the mode `internal` (growth by chaining nested buffers) only occurs in a class that drains nested buffers
+    (calls Buffer::get_last_nested / has_nested_buffers): otherwise everything written after the first internal growth
+    sits in a nested buffer nobody reads."""
+    en = fb.enum(BUFFER + '::auto_grow')
+    names = {int(e['value']): e['name'] for e in en['enumerators']} if en else {}
+    internal = next((v for v, n in names.items() if n == 'internal'), None)
+    if internal is None:
+        R.broken('enum %s::auto_grow / its enumerator `internal` not found' % BUFFER)
+        return
+    for cls in owners:
+        fns = [f for f in fb.functions if f.has_cfg and (f.cls == cls or (f.is_lambda and f.q.startswith(cls + '::')))]
+        modes = []
+        for f in fns:
+            for n in f.all_nodes():
+                if n.get('k') != 'construct' or n.get('q') != BUFFER + '::(ctor)' or n.get('copymove') or n.get('elidable'):
+                    continue
+                for a in n.get('args', []):
+                    an = f.sn(a) if a is not None else None
+                    if an is not None and S.plain_name(an.get('t', '')) == BUFFER + '::auto_grow':
+                        modes.append((f, n, f.const_value(a)))
+        if not modes:
+            continue
+        unknown = [m for m in modes if m[2] is None]
+        if unknown:
+            R.broken('%s: growth mode of the Buffer constructed in %s is not a constant' % (cls, unknown[0][0].q))
+            continue
+        vals = sorted({m[2] for m in modes})
+        maj = max(vals, key=lambda v: sum(1 for m in modes if m[2] == v))
+        odd = [m for m in modes if m[2] != maj]
+        R.check(len(vals) == 1, 'B1-output-buffer-growth-mode', cls + '#one-growth-mode-for-every-buffer-it-constructs',
+                odd[0][0].loc(odd[0][1]['id']) if odd else fns[0].site,
+                '%s constructs its buffers with auto_grow::%s, but the one in %s with auto_grow::%s' % (
+                    cls, names.get(maj, maj), odd[0][0].q if odd else '', names.get(odd[0][2], '?') if odd else ''))
+        drains = any(c.get('q') in (BUFFER + '::get_last_nested', BUFFER + '::has_nested_buffers') for f in fns for c in f.all_nodes() if c.get('k') == 'call')
+        ints = [m for m in modes if m[2] == internal]
+        R.check(not ints or drains, 'B1-output-buffer-growth-mode', cls + '#no-internal-growth-without-draining-nested-buffers',
+                ints[0][0].loc(ints[0][1]['id']) if ints else fns[0].site,
+                '%s creates a Buffer with auto_grow::internal but never calls get_last_nested()/has_nested_buffers(): after the first internal growth '
+                'the data is chained in nested buffers that no consumer of this class ever sees' % (ints[0][0].q if ints else cls))
+
+
+def buffer_rules(fb, R, M):
+    owners = [MDC, MD, RDB, RMB, RM, STASH, 'osmium::memory::CallbackBuffer'] + sorted({r.q for r in fb.derived_from(RMB)} - {RM})
+    buffer_growth_check(fb, R, owners)
+
+
+TWIN_CLASSES = ['osmium::RelationMember', 'osmium::RelationMemberList', 'osmium::Relation', 'osmium::OSMObject', 'osmium::memory::Item',
+                'osmium::memory::Collection', 'osmium::memory::CollectionIterator', STASH, MDC, MD, RDB, RH, RMB, RM,
+                'osmium::memory::CallbackBuffer']
+
+
+def _twin_norm(t):
+    import re
+    t = re.sub(r'\bconst\b', '', t)
+    t = re.sub(r'\bc(r?)(begin|end)\b', r'\1\2', t)
+    t = t.replace('const_iterator', 'iterator')
+    return re.sub(r'\s+', '', t)
+
+
+def _twin_resolve(fb, fn, depth=0):
+    """A twin that only delegates (`return cbegin();`) stands for the function it delegates to."""
+    rets = [n for n in fn.all_nodes() if n.get('k') == 'return' and 'sub' in n]
+    cs = [n for n in fn.all_nodes() if n.get('k') == 'call']
+    if len(rets) == 1 and len(cs) == 1 and depth < 3:
+        c = fn.sn(rets[0]['sub'])
+        while c is not None and c.get('k') == 'construct' and (c.get('elidable') or c.get('copymove')) and len(c.get('args', [])) == 1:
+            c = fn.sn(c['args'][0])
+        if c is not None and c.get('k') == 'call' and c.get('recv') is not None and (fn.sn(c['recv']) or {}).get('k') == 'this' and not c.get('args'):
+            gs = [g for g in fb.by_usr.get(c.get('u'), []) if g.has_cfg]
+            if gs:
+                return _twin_resolve(fb, gs[0], depth + 1)
+    return fn
+
+
+def _twin_signature(fn):
+    """CFG shape with the top-level statements and branch conditions as canonical text, const-ness normalised."""
+    pm = fn.parent_map()
+    order, seen, st = [], set(), [fn.entry]
+    while st:
+        b = st.pop()
+        if b is None or b in seen:
+            continue
+        seen.add(b)
+        order.append(b)
+        st.extend(reversed(fn.blocks[b]['succs']))
+    idx = {b: i for i, b in enumerate(order)}
+    out = []
+    for b in order:
+        blk = fn.blocks[b]
+        tops = [e for e in blk['elems'] if e not in pm and fn.nodes[e].get('k') != 'lit'
+                and not (fn.nodes[e].get('k') == 'cast' and fn.nodes[e].get('toC') == 'void')]
+        out.append((tuple(_twin_norm(fn.expr(e)) for e in tops), _twin_norm(fn.expr(blk['cond'])) if 'cond' in blk else None,
+                    tuple(idx.get(s_) if s_ is not None else None for s_ in blk['succs'])))
+    return out
+
+
+def _twin_vocabulary(fn):
+    """What a body is made of, independent of its arrangement and of local names: callees, fields, constants, operators."""
+    v = set()
+    for n in fn.all_nodes():
+        k = n.get('k')
+        if k == 'call' and 'q' in n:
+            v.add(('call', _twin_norm(n['q'])))
+        elif k == 'member' and n.get('field'):
+            v.add(('field', n['q']))
+        elif k == 'lit' and 'cv' in n and n.get('cv') not in ('0', '1'):
+            v.add(('const', n['cv']))
+        elif k == 'var' and n.get('vk') in ('enumconst', 'global', 'static_member'):
+            v.add(('const', n.get('q', n.get('name'))))
+        elif k in ('binop', 'assign') and n.get('op') not in ('&&', '||', ','):
+            v.add(('op', n['op']))
+        elif k == 'unop' and n.get('op') not in ('!',):
+            v.add(('op', 'u' + n['op']))
+    return v
+
+
+def twin_check(fb, R, classes):
+    """O1: the const and the non-const overload of one member function do the same thing modulo constness."""
+    groups = {}
+    for f in fb.functions:
+        if f.cls in classes and f.has_cfg and not f.is_lambda and f.kind in ('method', 'operator') and not f.static:
+            groups.setdefault((f.clsT or f.cls, f.name, tuple(_twin_norm(p['tC']) for p in f.params)), {}).setdefault(bool(f.const), []).append(f)
+    for (clsT, name, _ps), g in sorted(groups.items()):
+        if True not in g or False not in g:
+            continue
+        c, m = g[True][0], g[False][0]
+        key = '%s#const-and-non-const-overload-agree' % c.q
+        rc, rm = _twin_resolve(fb, c), _twin_resolve(fb, m)
+        if _twin_signature(c) == _twin_signature(m) or _twin_signature(rc) == _twin_signature(rm):
+            R.ok('O1-const-overload-twins-agree', key, m.site)
+            continue
+        if _twin_vocabulary(c) == _twin_vocabulary(m) or _twin_vocabulary(rc) == _twin_vocabulary(rm):
+            R.ok('O1-const-overload-twins-agree', key, m.site, 'same ingredients, different arrangement (not compared further)')
+            continue
+        vc, vm = _twin_vocabulary(c), _twin_vocabulary(m)
+        only_c = sorted('%s %s' % x for x in vc - vm)
+        only_m = sorted('%s %s' % x for x in vm - vc)
+        R.bad('O1-const-overload-twins-agree', key, m.site,
+              'the const and the non-const overload of %s::%s differ: only the const one has {%s}; only the non-const one has {%s} -- code that '
+              'reaches the object through a non-const path sees a different result than code that reaches it through a const path' % (
+                  clsT, name, ', '.join(only_c)[:200], ', '.join(only_m)[:200]))
+
+
+def twin_rules(fb, R, M):
+    twin_check(fb, R, set(TWIN_CLASSES))
+
+
 # ================================================================================================ driver
 
 GROUPS = [sorted_rules, track_rules, add_rules, remove_rules, second_pass_rules, first_pass_rules, consumer_rules, dispatch_rules,
-          listing_rules, counter_rules, lost_update_rules, stash_rules, retrieval_rules, interest_rules]
+          listing_rules, counter_rules, lost_update_rules, stash_rules, retrieval_rules, interest_rules, buffer_rules, twin_rules]
 
 
 def all_rules(fb, R):
@@ -2105,6 +2270,8 @@ def run(ctx):
     R.expect('C1-member-counter-ops', 6)
     R.expect('P1-wanted-type-matches-enabled-handlers', 3)
     R.expect('P2-new-relation-requires-a-wanted-member', 2)
+    R.expect('B1-output-buffer-growth-mode', 4)
+    R.expect('O1-const-overload-twins-agree', 18)
     R.expect('L1-write-reaches-storage', 2)
     R.expect('I2-stash-index-maintained', 3)
     R.expect('G1-absent-only-when-untracked-or-unstored', 3)
@@ -2133,12 +2300,23 @@ def _selftest_released_handle(fb, R):
         R.broken('positive example: the correct form remove_ok is reported')
 
 
+def _selftest_twins_and_buffers(fb, R):
+    twin_check(fb, R, {'c11pos4::Member', 'c11pos4::List'})
+    buffer_growth_check(fb, R, ['c11pos4::Output', 'c11pos4::Drained'], BUFFER='c11pos4::Buffer')
+    for k in (('O1-const-overload-twins-agree', 'c11pos4::List::begin#const-and-non-const-overload-agree'),
+              ('B1-output-buffer-growth-mode', 'c11pos4::Drained#no-internal-growth-without-draining-nested-buffers')):
+        if k not in R.instances or not R.instances[k].ok:
+            R.broken('positive example: the correct form %s is missing or reported' % k[1])
+
+
 def _selftest_lost_update(fb, R):
     lost_update_check(fb, R, [f for f in fb.functions if f.has_cfg])
 
 
 SELFTESTS = [
     ('L1-write-reaches-storage', 'c11_lost_update.cpp', _selftest_lost_update),
+    ('O1-const-overload-twins-agree', 'c11_twins_buffers.cpp', _selftest_twins_and_buffers),
+    ('B1-output-buffer-growth-mode', 'c11_twins_buffers.cpp', _selftest_twins_and_buffers),
     ('R4-released-handle-not-kept', 'c11_released_handle.cpp', _selftest_released_handle),
     ('S1-search-key-prefix-of-sort-key', 'c11_sorted.cpp', _selftest_container),
     ('S2-searched-container-is-sorted', 'c11_sorted.cpp', _selftest_container),
